@@ -343,6 +343,8 @@ class HdlcFrameReader(MeterReaderBase[HdlcFrame]):
                 self._start_frame()
                 self._buffer.trim_buffer_to_current_position()
 
+        # all buffered octets have been consumed: do not retain them (inter-frame flag fill would grow the buffer without bound)
+        self._buffer.trim_buffer_to_current_position()
         return frames_received
 
     def _read_next(self) -> bool:
